@@ -31,7 +31,7 @@ func TestMain(m *testing.M) {
 		}
 		os.Exit(0)
 	}
-	R.Require("ecb", "cbc", "cfb", "ofb", "blocks>=3", "spare_capacity", "padlike_tail", "helper_history", "fresh_process_history")
+	R.Require("ecb", "cbc", "cfb", "ofb", "blocks>=3", "spare_capacity", "padlike_tail", "helper_history", "fresh_process_history", "iv_assigned_to_variable", "iv_written_through_variable")
 	for i := 0; i < 16; i++ {
 		R.Require(fmt.Sprintf("len%%16==%d", i))
 	}
@@ -102,8 +102,26 @@ func runCase(t interface{ Fatalf(string, ...any) }, c tcase) {
 		if err := sm4.SetIV(make([]byte, 16)); err != nil {
 			t.Fatalf("SetIV(zero): %v", err)
 		}
-	} else if err := sm4.SetIV(iv); err != nil {
-		t.Fatalf("SetIV(16 bytes): %v", err)
+	} else {
+		// three ways a caller puts an IV in force: SetIV, assigning the exported variable sm4.IV, or writing the bytes
+		// of the slice that variable holds; the helpers work under whatever sm4.IV holds when they are called
+		switch caseNo % 3 {
+		case 0:
+			if err := sm4.SetIV(iv); err != nil {
+				t.Fatalf("SetIV(16 bytes): %v", err)
+			}
+		case 1:
+			sm4.IV = iv
+			R.Class("iv_assigned_to_variable")
+		default:
+			hold := make([]byte, 16)
+			if err := sm4.SetIV(hold); err != nil {
+				t.Fatalf("SetIV(16 bytes): %v", err)
+			}
+			copy(sm4.IV, c.iv)
+			iv = sm4.IV
+			R.Class("iv_written_through_variable")
+		}
 	}
 	f := helper(c.mode)
 	desc := fmt.Sprintf("mode=%s key=%x iv=%x len=%d spare=%d", c.mode, c.key, c.iv, len(c.pt), c.spareIn)
